@@ -570,6 +570,33 @@ class Machine:
             self.fault_tags.add("hook:%s" % CTL.fired[0])
             P.probes["hook_fired:%s_in_%s" % CTL.fired] += 1
             CTL.fired = None
+        # identity independence: the same operation on a structural clone of a *referenced* container
+        # (fresh objects, equal content) must end the same way
+        if self._last_ref_clone is not None and outcome[0] in ("ok", "raise") and not hook \
+                and op["op"] in ("from_native", "substitute", "validate"):
+            rop = dict(op)
+            rop["out"] = "ii%d" % self.step
+            rop["vout"] = None
+            rop["v"] = {"lit": self._last_ref_clone}
+            before = dict(self.schemas)
+            keep = self._pending_retained
+            self._pending_retained = []
+            try:
+                out2 = self.run_op(rop)
+            except MissingOperand:
+                out2 = None
+            except (DrawCapExceeded, RecursionError):
+                out2 = None
+            except Exception as e:
+                out2 = ("raise", type(e).__name__)
+            self.schemas = before
+            self._pending_retained = keep
+            if out2 is not None:
+                P.probes["identity_independence_checked"] += 1
+                if out2 != outcome:
+                    raise Violation("I3:depends_on_object_identity", op["op"], op.get("how", ""),
+                                    "%s on the referenced container gave %s, on an equal fresh copy %s" % (
+                                        describe(op), str(outcome)[:120], str(out2)[:120]), sorted(self.fault_tags))
         P.probes["op:%s:%s" % (op["op"], outcome[0])] += 1
         if outcome[0] == "raise":
             P.probes["raised_in:%s" % op["op"]] += 1
@@ -714,7 +741,7 @@ class OpGen:
                 d.update(base)
                 return r.choice((d, [d], {"k": d}))
             return OrderedDict(base)
-        return copy.deepcopy(r.choice(([1, ...], {"a": ...}, [..., 1], {"a": [1, 2], "b": {"c": None}}, [[1, 2], [3]], [{"a": 1}, {"a": 2}],
+        return copy.deepcopy(r.choice(([1, ...], {"a": ...}, [..., 1], {"k": {...: 1}}, [{...: 1}], {"a": [1, {...: 2}]}, {...: ...}, {"a": [1, 2], "b": {"c": None}}, [[1, 2], [3]], [{"a": 1}, {"a": 2}],
                                        (1, 2), ("a",), {"a", "b"}, frozenset((1, 2)), bytearray(b"ab"), [(1, 2), {"k": (3,)}])))
 
     def vspec(self, e):
@@ -881,6 +908,12 @@ class OpGen:
                 _re.compile(pat)
             except Exception:
                 continue
+            if r.random() < 0.25:
+                pat = "(?i)" + pat          # an inline flag (ignored by the generator today)
+                try:
+                    _re.compile(pat)
+                except Exception:
+                    continue
             spec = {"t": "str", "regex": {"pattern": pat, "ast": ast}, "order": ["regex"]}
             return {"op": "declare", "spec": spec, "out": self.new_id("s")}
         return None
